@@ -93,6 +93,7 @@ void run_num(const Execution &ex) {
         } else if (op == "AssignBig") o = Conv<T>::to(1000000);
         else if (op == "AddAbsorbed") o += Conv<T>::to(v);
         else if (op == "DivZero") o /= Conv<T>::to(0);
+        else if (op == "AssignF") o = (double) v / 2;
         else if (op == "AddF") o += (double) v / 2;   // an operand of another arithmetic type
         else if (op == "SubF") o -= (double) v / 2;
         else if (op == "MulF") o *= (double) v / 2;
